@@ -655,7 +655,9 @@ EXC_BASES = {
     "AttributeError": "Exception", "RuntimeError": "Exception", "NotImplementedError": "RuntimeError",
     "OSError": "Exception", "struct.error": "Exception", "AssertionError": "Exception",
     "StopIteration": "Exception", "CallbackError": "Exception", "json.JSONDecodeError": "ValueError",
-    "ConnectionError": "OSError", "ConnectionResetError": "ConnectionError",
+    "ConnectionError": "OSError", "ConnectionResetError": "ConnectionError", "ConnectionRefusedError": "ConnectionError",
+    "TimeoutError": "OSError", "asyncio.TimeoutError": "TimeoutError", "KeyboardInterrupt": "BaseException",
+    "asyncio.CancelledError": "BaseException",
 }
 
 
